@@ -309,6 +309,11 @@ def generate(rng, tier, index, seed):
     if tail == "destroy":
         ops.append({"op": "destroy", "kind": "destroy"})
         ops.append({"op": "fdcount", "kind": "fdcount-final"})
+    if focus != "eph" and rng.chance(1, 2):
+        # fault: some close() calls release the descriptor but report EINTR / EIO (what Linux does when a signal or a deferred write error
+        # arrives during close): the owner must still count the descriptor as released -- exactly once
+        knobs = dict(knobs)
+        knobs["close_fail"] = sorted(set(rng.below(12) for _ in range(rng.range(1, 6))))
     mode = rng.weighted([("none", 3), ("bernoulli", 3), ("every", 1)])
     gc = {"mode": mode, "heapcheck_every": rng.choice([0, 1]), "max_forced": 300}
     if mode == "bernoulli":
@@ -511,7 +516,7 @@ def execute(case, run):
         st = res["stats"]
         cnt = res.get("counters", {})
         oc.fired = {"forced_collection": st["gc_forced"], "natural_collection": st["gc_natural"], "emfile_retry": cnt.get("fopen_emfile", 0),
-                    "descriptor_limit_lowered": 1 if case["knobs"].get("nofile") else 0,
+                    "descriptor_limit_lowered": 1 if case["knobs"].get("nofile") else 0, "close_reported_failure": cnt.get("close_reported_failure", 0),
                     "context_destroyed": 1 if any(o["kind"] == "destroy" for o in case["ops"]) else 0}
         oc.stats = {"sim_us": st["sim_us"], "allocs": st["allocs"], "model_checks": checks, "fopen": cnt.get("fopen_ok", 0), "fclose": cnt.get("fclose", 0), "close": cnt.get("close", 0)}
         oc.nontrivial = st["gc_forced"] >= 2 and checks >= 1
